@@ -631,6 +631,13 @@ impl<'tcx> Interp<'tcx> {
             StatementKind::StorageDead(l) => {
                 let fi = self.fi() as usize;
                 if l.as_usize() < st.frames[fi].locals.len() {
+                    if let Some(Some(m)) = self.scope_end.last_mut() {
+                        if let Val::Int(i) = &st.frames[fi].locals[l.as_usize()] {
+                            let e = m.entry(l.as_u32()).or_insert((i.lo, i.hi));
+                            e.0 = e.0.min(i.lo);
+                            e.1 = e.1.max(i.hi);
+                        }
+                    }
                     st.frames[fi].locals[l.as_usize()] = Val::Bot;
                     st.frames[fi].bump(l.as_u32());
                 }
